@@ -1,5 +1,6 @@
 mod c01;
 mod c02;
+mod c03;
 mod c04;
 mod c05;
 mod sweep;
@@ -22,6 +23,7 @@ fn dispatch_run(prop: &str, ctx: &mut Ctx) -> bool {
         "C01" => c01::run(ctx),
         "C11" => c11::run(ctx),
         "C02" => c02::run(ctx),
+        "C03" => c03::run(ctx),
         "C04" => c04::run(ctx),
         "C05" => c05::run(ctx),
         _ => return false,
@@ -34,6 +36,7 @@ fn dispatch_replay(prop: &str, ctx: &mut Ctx, scenario: &Value) -> Result<(), St
         "C01" => c01::replay(ctx, scenario),
         "C11" => c11::replay(ctx, scenario),
         "C02" => c02::replay(ctx, scenario),
+        "C03" => c03::replay(ctx, scenario),
         "C04" => c04::replay(ctx, scenario),
         "C05" => c05::replay(ctx, scenario),
         _ => Err(format!("no replay for {prop}")),
